@@ -9,6 +9,8 @@ import (
 	"fmt"
 	"io"
 	"os"
+	"runtime"
+	"strings"
 	"sync"
 	"time"
 
@@ -63,6 +65,8 @@ type Fault struct {
 	Fired     bool
 	FiredKind Kind
 	FiredLen  int
+	// FiredIn names the no-error-result API (EvictSomeItems) the faulted call was issued from, if any.
+	FiredIn string
 }
 
 type Range struct{ Lo, Hi int64 } // [Lo,Hi)
@@ -212,6 +216,17 @@ func (f *File) shouldFail(k Kind, n int) (fail bool, partial int) {
 	f.fault.Fired = true
 	f.fault.FiredKind = k
 	f.fault.FiredLen = n
+	var pcs [48]uintptr
+	fr := runtime.CallersFrames(pcs[:runtime.Callers(2, pcs[:])])
+	for {
+		frame, more := fr.Next()
+		if strings.HasSuffix(frame.Function, ".EvictSomeItems") {
+			f.fault.FiredIn = "EvictSomeItems"
+		}
+		if !more {
+			break
+		}
+	}
 	p := f.fault.Partial
 	if p < 0 {
 		p = 0
